@@ -141,7 +141,8 @@ VOCAB = ['al', 'ah', 'bl', 'bh', 'cl', 'ch', 'dl', 'dh',
          'aaa', 'aad', 'aam', 'aas', 'daa', 'das', 'cbw', 'cwd',
          'lahf', 'sahf', 'pushf', 'popf', 'xlat',
          'stc', 'clc', 'cmc', 'std', 'cld', 'sti', 'cli', 'hlt',
-         'movs', 'lods', 'stos', 'cmps', 'scas', 'rep', 'repz', 'repnz', 'byte', 'word']
+         'movs', 'lods', 'stos', 'cmps', 'scas', 'rep', 'repz', 'repnz', 'byte', 'word',
+         'jnbe', 'jnb', 'jnae', 'jna', 'jz', 'jnle', 'jnl', 'jnge', 'jng', 'jnz', 'jpo', 'jpe', 'loopz', 'loopnz', 'repe', 'repne']
 
 
 def vocab_consts():
@@ -153,6 +154,19 @@ def vocab_consts():
 SYNONYMS = {'shl': 'sal', 'jnbe': 'ja', 'jnb': 'jae', 'jnae': 'jb', 'jna': 'jbe', 'jz': 'je', 'jnle': 'jg', 'jnl': 'jge',
             'jnge': 'jl', 'jng': 'jle', 'jnz': 'jne', 'jpo': 'jnp', 'jpe': 'jp', 'loopz': 'loope', 'loopnz': 'loopne',
             'repe': 'repz', 'repne': 'repnz'}
+
+
+# mnemonics with the same Intel meaning: the assembler may emit any member of the source spelling's class
+CLASSES = [{'ja', 'jnbe'}, {'jae', 'jnb', 'jnc'}, {'jb', 'jnae', 'jc'}, {'jbe', 'jna'}, {'je', 'jz'}, {'jg', 'jnle'}, {'jge', 'jnl'},
+           {'jl', 'jnge'}, {'jle', 'jng'}, {'jne', 'jnz'}, {'jnp', 'jpo'}, {'jp', 'jpe'}, {'loope', 'loopz'}, {'loopne', 'loopnz'},
+           {'sal', 'shl'}, {'repz', 'repe'}, {'repnz', 'repne'}]
+
+
+def same_meaning(low):
+    for c in CLASSES:
+        if low in c:
+            return sorted(c)
+    return [low]
 
 
 def spelling_module(g, leaves, params):
@@ -191,8 +205,9 @@ def spelling_module(g, leaves, params):
             for (expr, text) in chunk:
                 low = text.lower()
                 exp = SYNONYMS.get(low, low)
-                L.append('    { let g: String = %s; if !eq(g.as_str(), %s) { ok = false; note(%s, %s, g.as_str(), %s); }%s std::mem::forget(g); }'
-                         % (expr, json.dumps(exp), json.dumps(nt), json.dumps(text), json.dumps(exp),
+                accept = ' || '.join('eq(g.as_str(), %s)' % json.dumps(m) for m in same_meaning(low))
+                L.append('    { let g: String = %s; if !(%s) { ok = false; note(%s, %s, g.as_str(), %s); }%s std::mem::forget(g); }'
+                         % (expr, accept, json.dumps(nt), json.dumps(text), json.dumps(exp),
                             ' if !known_jump(g.as_str()) { known = false; }' if nt == 'quote_jmps_loops' else ''))
             L.append('    vassert!("%s.spelling.%s.emitted_text", ok);' % (P, nt))
             if nt == 'quote_jmps_loops':
